@@ -26,6 +26,21 @@ TB = ('Trusted: Lean 4.33 kernel; axioms propext/Classical.choice/Quot.sound onl
       'no sorry, no own axioms); the translator and the correspondence harness; the shims for datedelta/grapheme/ruamel; '
       'CPython/regex behaviour. ')
 
+check('C01', 'proof',
+      'Span algebra proved universally over ANY list of regex match spans (the regex engine is a parameter): sweep_spans / '
+      'sweep_spans_ip / sweep_spans_number (every extracted result is non-empty, in bounds and its text is the stripped slice), '
+      'percent_posmap_monotone / percent_restore_span, mergeAllTokens_text, mergeModPrefix_span, modifier_push_pop, '
+      'phoneRespan_span, model_end (end = start + length - 1); preprocess_length: query normalisation (recode table '
+      'regenerated from QueryProcessor.preprocess each run + per-character lower-casing) preserves the length for every '
+      'query, with the negative theorem for the pre-fix str.lower() (U+0130). Unit correspondence replays ~40k RECORDED '
+      'calls of the real extractors (regex match spans captured by wrapping regex from the harness) through the Lean model; '
+      'preprocess is compared on EVERY code point. Pipeline: the predicate spanOK on every entity of every registered '
+      '(model, culture) pair (81) over Specs inputs, generated expressions in carriers and a noise pool.',
+      TB + 'Culture configurations, NumberWithUnit prefix/suffix selection, remaining date-time sub-extractor arithmetic and Choice are '
+      'reached only by the pipeline predicate. 58 recorded findings keyed by input (zh-cn date-time offsets).',
+      'Lean 4 proof (span algebra universal over regex behaviour) + recorded-call correspondence + pipeline predicate',
+      'DESIGN.md §3 C01')
+
 check('C03', 'proof',
       'Lean model of Python `decimal` under a context (precision p, half-even), `_get_digital_value`, sign handling and '
       '`CultureInfo.format`, with the ten cultures\' parser configurations regenerated from the working tree each run. Proved: '
@@ -129,6 +144,20 @@ check('C11', 'proof',
       'monitor is the only check. Entities with resolution None are counted, not judged. 35 recorded findings keyed by input.',
       'Lean 4 proof about the assembly + Lean spec predicate evaluated on every entity the implementation returns',
       'DESIGN.md §3 C11')
+
+check('C12', 'proof',
+      'Proved for every list of regex match spans: runs_disjoint, sweep_disjoint (sequence), sweep_disjoint_ip, '
+      'sweep_disjoint_percent, sweep_disjoint_number (under the NegInside/NegClear guards the repaired extractor meets, with '
+      'the pre-fix counterexample "minus 5 and 6"), mergeAllTokens_disjoint (every token list), nwu_filter_no_containment. '
+      'BaseMergedExtractor.add_to does NOT preserve disjointness: addTo_crossing_counterexample (kernel-decided) and the '
+      'positive addTo_disjoint_of_noCrossing under a monitored hypothesis. Unit correspondence on recorded calls of the real '
+      'sweeps / merge_all_tokens / add_to / the NumberWithUnit filter; pipeline: pairwise disjointness of the entities of '
+      'every registered (model, culture) pair over Specs inputs, generated expressions (alone, in carriers, several per '
+      'sentence) and noise.',
+      TB + '671 recorded findings keyed by input: overlapping entities that the cross-platform Specs expect (date-time add_to crossings), '
+      'NumberWithUnit results sharing a unit character, zh-cn date-time spans. A new overlapping input is still a violation.',
+      'Lean 4 proof (universal over regex behaviour) + recorded-call correspondence + pipeline disjointness monitor',
+      'DESIGN.md §3 C12')
 
 check('C13', 'proof',
       'The IPv4 / IPv6 / GUID patterns are re-translated from the working tree\'s resource files into Lean regex ASTs on every '
